@@ -148,8 +148,17 @@ def mutate(src, rnd):
         if not s:
             s = rnd.choice(MUT_CHARS)
             continue
-        k = rnd.randrange(4)
+        k = rnd.randrange(5)
         i = rnd.randrange(len(s) + 1)
+        if k == 4:
+            # keywords, directive and function names in another case
+            j = i
+            while j < len(s) and (s[j].isalpha() and s[j].isascii()):
+                j += 1
+            if j > i:
+                word = s[i:j]
+                s = s[:i] + rnd.choice([word.upper(), word.capitalize(), word.swapcase()]) + s[j:]
+            continue
         if k == 0:
             s = s[:i] + rnd.choice(MUT_CHARS) + s[i:]
         elif k == 1:
